@@ -16,7 +16,7 @@ def judge(req, obs):
 def run(ctx):
     res = Result("model_checking")
     res.rule = ("E1: every single deviation (full fault alphabet per request kind + hook exits) at every choice point of an "
-                "issuance, x {no pair, existing pair} x kp_reuse, plus existing pairs whose key file the daemon cannot load (foreign curve, truncated, empty; kp_reuse on), plus two consecutive attempts of one daemon process (a fault in either); thorough adds bound 2 over a reduced alphabet and bound 3 "
+                "issuance, x {no pair, existing pair} x kp_reuse, plus existing pairs whose key file the daemon cannot load (foreign curve, truncated, empty; kp_reuse on), plus two consecutive attempts of one daemon process (a fault in either), plus default runs under three file size limits (write(2) failing for the key, or for both files); thorough adds bound 2 over a reduced alphabet and bound 3 "
                 "over {badNonce, cut}. An outcome is the attempt result + file-state class; a state is (variant, deviations so far, position).")
     plans = [("full", [e1.FULL], 1)]
     if not ctx.quick:
@@ -58,6 +58,25 @@ def run(ctx):
                 bounds["%s/%s" % (variant, name)] = {"bound": bound, "executions": st["executions"], "per_depth": st["per_depth"],
                                                     "choice_points": st["choice_points_max"]}
                 res.extra.setdefault("alphabet_sizes", {}).update({name: st["alphabet_sizes"]})
+    # local write failures: the daemon runs under a file size limit that the key file, or both files, do not fit (default run, 3 limits x kp_reuse)
+    lim = []
+    for limit in (300, 1000, 1750):
+        for pair, kp in (("none", False), ("existing", False), ("existing", True)):
+            q = flows.issuance_request(pair=pair, kp_reuse=kp, key_type="rsa2048")
+            q["phases"][0]["fsize_limit"] = limit
+            q["meta"]["variant_suffix"] = "|fsize_limit=%d" % limit
+            lim.append(q)
+    for q, o in zip(lim, e1.run_all(ctx.pool, lim, 120.0)):
+        e1.check_obs(o)
+        res.evaluations += 1
+        res.transitions += len(o.get("cps", []))
+        res.outcomes["fsize|" + flows.outcome_class(o)] += 1
+        # a local write failure is outside the property's quantifier (CA and network faults): what a *failed* attempt leaves behind under it
+        # is not judged; an attempt reported successful must still have installed a consistent pair
+        atts = e1.split_attempts(o.get("events", []))
+        if atts and atts[-1].end is not None and atts[-1].end.get("success"):
+            for (oracle, sig, ex, ob) in judge(q, o):
+                res.violation(oracle, sig, ex, ob, replay=q)
     res.extra["bound_completed"] = bounds
     res.assumptions = ["key material and ECDSA nonces come from OpenSSL's CSPRNG (not owned); control flow does not depend on them",
                        "faults are answers of the mock CA (the property quantifies over CA and network faults; hook failures are C07/C10 territory); a fault answer consumes the nonce but does not change CA state"]
